@@ -45,6 +45,13 @@ RULE = ("synthetic VCF text (1..3 sample columns, 0..2 PEDIGREE tags incl. tags 
         "--min-variant-depth (-m where the command has it; incl. the default value spelled out) and -z/--zygosity-freq "
         "(left out, bare, with a number) given or left out in shuffled order; the command runs as cnvkit.py runs it up to "
         "its load_het_snps call, whose received arguments (bound to the callee's parameter names) are the observable. "
+        "Header-declared pairs of the GATK conventions (360 / 2400 reads + 180 / 1200 load_het_snps, tags pairs-*): real "
+        "##GATKCommandLine=<ID=MuTect,..,CommandLineOptions=\"..\"> lines (tumor_sample_name / normal_sample_name among "
+        "shuffled other tokens, bare tokens, values with '=', 1..3 blanks; tumor_sample_name missing / naming no sample; "
+        "normal_sample_name or CommandLineOptions missing = KeyError cell; a key given twice; records of other tools) and "
+        "##GATKCommandLine.MuTect2 lines (structured or not) on 2 samples (NORMAL,TUMOR / TUMOR,NORMAL / other names) and on "
+        "1 / 3 samples; MuTect + MuTect2, other tool + MuTect2, PEDIGREE (with / without Derived, or unstructured) + either, "
+        "x sample_id / normal_id selectors (none, the declared tumour, any, position). "
         "non-trivial = a read with >= 1 record and an existing sample, a BAF with >= 1 heterozygous row "
         "inside some range; distinct by hash of the case")
 EXHAUSTIVE = {"quick": False, "thorough": False}
@@ -70,6 +77,8 @@ TRUSTED_EXTRA = [
     "pandas DataFrame.from_records NaN coercion, Series division (x/0 = inf, 0/0 = NaN), fillna, boolean masks, "
     "label alignment of Series assignment, Series.median / np.nanmedian",
     "Model/Ranges.lean iterSlices = skgenome.intersect.iter_slices (tied by C07)",
+    "the GATKCommandLine record as data (Model/VcfPairs.lean): its ID item and the whitespace tokens of its CommandLineOptions "
+    "item, each cut at the first '=' -- the harness renders the text from the token list; str.strip / split are not modelled",
     "harness/dectrans.py: the reading of the if / elif / return structure of vcfio._extract_genotype, _get_alt_count, "
     "_safesum (rules at the top of the file) and the vocabulary of harness/extractors/vcf_decisions.py (source text of each "
     "condition / value -> atom name; the Lean definitions Src.hasAD, adIsTuple, adGiven, adHasSecond, severalAlleles, "
@@ -128,7 +137,8 @@ def vcf_text(v):
               f'##FORMAT=<ID=AD,Number={v["ad_number"]},Type=Integer,Description="allelic depths">',
               '##FORMAT=<ID=DP,Number=1,Type=Integer,Description="depth">']
     for tag in v["tags"]:
-        lines.append("##PEDIGREE=<" + ",".join(f"{k}={val}" for k, val in tag) + ">")
+        lines.append("##PEDIGREE=<" + ",".join(f"{k}={val}" for k, val in tag) + ">" if tag else "##PEDIGREE=none")
+    lines += _gatk_lines(v)
     lines.append("#CHROM\tPOS\tID\tREF\tALT\tQUAL\tFILTER\tINFO\tFORMAT\t" + "\t".join(v["samples"]))
     for r in v["records"]:
         info = ";".join(([f"DP={r['info_dp']}"] if r["info_dp"] is not None else []) +
@@ -137,6 +147,23 @@ def vcf_text(v):
                                 ";".join(r["filter"]) or ".", info, ":".join(r["fmt"])] +
                                [_render_smp(r["fmt"], s, v["ad_number"]) for s in r["smps"]]))
     return "\n".join(lines) + "\n"
+
+
+def _gatk_lines(v):
+    """the ##GATKCommandLine / ##GATKCommandLine.MuTect2 records of the `gatk` / `mutect2` entries (Model/VcfPairs.lean):
+    the option tokens joined by the record's own whitespace pattern inside a quoted CommandLineOptions item"""
+    out = []
+    for g in v.get("gatk") or []:
+        items = ([f"ID={g['id']}"] if g["id"] is not None else []) + ["Version=3.1"]
+        if g["opts"] is not None:
+            sep = g.get("sep") or " "
+            text = sep.join(k if val is None else f"{k}={val}" for k, val in g["opts"])
+            items.append('CommandLineOptions="' + (g.get("lead") or "") + text + '"')
+        out.append("##GATKCommandLine=<" + ",".join(items) + ">")
+    if v.get("mutect2"):
+        out.append(v["mutect2"] if isinstance(v["mutect2"], str) else
+                   '##GATKCommandLine.MuTect2=<ID=MuTect2,Version=3.8,CommandLineOptions="analysis_type=MuTect2 dbsnp=x.vcf">')
+    return out
 
 
 def _model_smp(fmt, smp, ad_number):
@@ -151,9 +178,14 @@ def _model_smp(fmt, smp, ad_number):
 
 def model_vcf(v):
     """the view pysam gives of the file, as the Lean model takes it"""
-    return {"samples": v["samples"], "tags": v["tags"],
-            "records": [[r["chrom"], r["pos"], r["ref"], r["alts"], r["filter"], r["info_dp"], r["somatic"],
-                         [_model_smp(r["fmt"], s, v["ad_number"]) for s in r["smps"]]] for r in v["records"]]}
+    m = {"samples": v["samples"], "tags": v["tags"],
+         "records": [[r["chrom"], r["pos"], r["ref"], r["alts"], r["filter"], r["info_dp"], r["somatic"],
+                      [_model_smp(r["fmt"], s, v["ad_number"]) for s in r["smps"]]] for r in v["records"]]}
+    if v.get("gatk"):
+        m["gatk"] = [{"id": g["id"], "opts": g["opts"]} for g in v["gatk"]]
+    if v.get("mutect2"):
+        m["mutect2"] = True
+    return m
 
 
 # ---------------------------------------------------------------------------------------------
@@ -362,6 +394,126 @@ def gen_hets(rng, nmax=40):
     if rng.random() < 0.3:
         i["implicit"] = True  # arguments that equal the function's default are left out of the call
     return {"op": "vcf_hets", "tag": "hets", "in": i}
+
+
+_BENIGN_HEADERS = ["##source=synthetic", "##reference=file:///ref.fa", '##SAMPLE=<ID=S,Description="a sample">',
+                   '##GATKCommandLine.HaplotypeCaller=<ID=HaplotypeCaller,CommandLineOptions="x=1">']
+PAIR_CELLS = ["mutect", "mutect", "mutect-no-tumor", "mutect-unknown-tumor", "mutect-no-normal", "mutect-dup-key",
+              "mutect2-NT", "mutect2-TN", "mutect2-other", "mutect2-other", "mutect2-1", "mutect2-3",
+              "mutect+mutect2", "othergatk+mutect2", "ped+mutect", "ped+mutect2", "ped-noderived+mutect",
+              "ped-noderived+mutect2"]
+
+
+def _mutect_rec(rng, t, n, noise=True):
+    """a legacy MuTect command line: option tokens (key, value | None for a bare token) in shuffled order"""
+    toks = ([["tumor_sample_name", t]] if t is not None else []) + ([["normal_sample_name", n]] if n is not None else [])
+    if noise:
+        toks += rng.sample([["analysis_type", "MuTect"], ["bare", None], ["filter", "a=b,c"], ["dbsnp", "[(x=1)]"],
+                            ["tumor_sample_nam", "S0"], ["normal_sample_name2", "S1"], ["--flag", None]],
+                           rng.randint(0, 4))
+        rng.shuffle(toks)
+    return {"id": "MuTect", "opts": toks, "sep": rng.choice([" ", " ", "  ", "   "]), "lead": rng.choice(["", "", " "])}
+
+
+def _pair_cell(rng, v, cell):
+    """overwrite the header of `v` with one cell of the header-declared-pair conventions; returns the sample a
+    selector should favour (None: any)"""
+    k = len(v["samples"])
+    names = {1: [["A"], ["TUMOR"]], 2: [["A", "B"], ["S0", "S1"]], 3: [["A", "B", "C"], ["NORMAL", "TUMOR", "X9"]]}
+    if cell == "mutect2-NT":
+        v["samples"] = ["NORMAL", "TUMOR"]
+    elif cell == "mutect2-TN":
+        v["samples"] = ["TUMOR", "NORMAL"]
+    elif cell == "mutect2-other":
+        v["samples"] = rng.choice([["A", "B"], ["TUMOR", "X9"], ["X9", "NORMAL"], ["NORMAL", "Tumor"], ["b", "a"]])
+    else:
+        v["samples"] = rng.choice(names[k])
+    s = v["samples"]
+    v["tags"], v["gatk"], v["mutect2"] = [], [], False
+    v["extra_headers"] = rng.sample(_BENIGN_HEADERS, rng.choice([0, 0, 1, 2]))
+    t, n = (rng.sample(s, 2) if k >= 2 else (s[0], s[0]))
+    other = {"id": rng.choice(["HaplotypeCaller", "UnifiedGenotyper", None]),
+             "opts": [["normal_sample_name", s[0]], ["tumor_sample_name", s[-1]]]}
+    if cell == "mutect":
+        v["gatk"] = [_mutect_rec(rng, t, n)]
+        if rng.random() < 0.3:
+            v["gatk"].insert(rng.randint(0, 1), other)
+    elif cell == "mutect-no-tumor":
+        v["gatk"] = [_mutect_rec(rng, None, n)]
+    elif cell == "mutect-unknown-tumor":
+        v["gatk"] = [_mutect_rec(rng, rng.choice(["zz", "tumor", s[0] + "x"]), n)]
+    elif cell == "mutect-no-normal":  # malformed: options["normal_sample_name"] raises KeyError
+        v["gatk"] = [_mutect_rec(rng, t, None)]
+        if rng.random() < 0.3:
+            v["gatk"][0]["opts"] = None  # no CommandLineOptions item at all
+        elif rng.random() < 0.2:
+            v["gatk"][0]["opts"] = []
+    elif cell == "mutect-dup-key":  # a dict built from the tokens: the last one of a key counts
+        g = _mutect_rec(rng, t, n, noise=False)
+        g["opts"] = [["normal_sample_name", t], ["tumor_sample_name", n]] + g["opts"]
+        v["gatk"] = [g]
+    elif cell.startswith("mutect2"):
+        v["mutect2"] = rng.choice([True, True, "##GATKCommandLine.MuTect2=unstructured"])
+    elif cell == "mutect+mutect2":  # GATKCommandLine shadows GATKCommandLine.MuTect2
+        v["gatk"], v["mutect2"] = [_mutect_rec(rng, s[-1], s[0])], True
+    elif cell == "othergatk+mutect2":  # ... even when no record of it is MuTect's: nothing is declared
+        v["gatk"], v["mutect2"] = [other], True
+    elif cell in ("ped+mutect", "ped+mutect2"):  # PEDIGREE wins (the GATK lines say the opposite pair)
+        v["tags"] = [[["Derived", t], ["Original", n]]]
+        if cell == "ped+mutect":
+            v["gatk"] = [_mutect_rec(rng, n, t)]
+            v["mutect2"] = rng.random() < 0.5
+        else:
+            v["mutect2"] = True
+    else:  # a PEDIGREE record without Derived shadows the GATK lines too: nothing is declared
+        v["tags"] = [rng.choice([[["Child", s[0]], ["Mother", s[-1]]], [["ID", s[0]]], []])]
+        if cell == "ped-noderived+mutect":
+            v["gatk"] = [_mutect_rec(rng, t, n)]
+        else:
+            v["mutect2"] = True
+    return t
+
+
+def _pair_sels(rng, names, tumour):
+    """selectors crossed with the header cell: none (half), the declared tumour, any sample, a normal id"""
+    r = rng.random()
+    sid = None if r < 0.5 else (tumour if r < 0.7 and tumour in names else _gen_sel(rng, names, rng.random() < 0.3))
+    nid = None if rng.random() < 0.6 else _gen_sel(rng, names, False)
+    return sid, nid
+
+
+def _pair_ns(cell, rng):
+    if cell in ("mutect2-NT", "mutect2-TN", "mutect2-other"):
+        return 2
+    if cell == "mutect2-1":
+        return 1
+    if cell == "mutect2-3":
+        return 3
+    return rng.choice([2, 2, 3])
+
+
+def gen_pairs_read(rng, nmax=30):
+    cell = rng.choice(PAIR_CELLS)
+    c = gen_read(rng, nmax, ns=_pair_ns(cell, rng))
+    v = c["in"]["vcf"]
+    t = _pair_cell(rng, v, cell)
+    if cell == "mutect-no-tumor" and rng.random() < 0.15:
+        v["records"] = []  # no record: the reader never asks for the tumour column
+    c["in"]["sid"], c["in"]["nid"] = _pair_sels(rng, v["samples"], t)
+    c["tag"] = "pairs-" + cell
+    return c
+
+
+def gen_pairs_hets(rng, nmax=30):
+    cell = rng.choice(PAIR_CELLS)
+    v = gen_vcf(rng, nmax, dyadic=rng.random() < 0.3, ns=_pair_ns(cell, rng), het_rich=True)
+    t = _pair_cell(rng, v, cell)
+    o = _gen_hetopts(rng, v)
+    o["sid"], o["nid"] = _pair_sels(rng, v["samples"], t)
+    o["tumor_boost"] = rng.random() < 0.25
+    i = {"vcf": v}
+    i.update(o)
+    return {"op": "vcf_hets", "tag": "pairs-" + cell, "in": i}
 
 
 def _gen_segs(rng, contigs, span):
@@ -776,6 +928,11 @@ def gen_cases(rng, tier):
     # the option glue of all five VCF-reading commands (cheap: the command stops where it calls load_het_snps)
     for _ in range({"search": 150, "quick": 200}.get(tier, 1500)):
         cases.append(gen_cliopts(rng))
+    # header-declared pairs of the two GATK conventions and their precedence (Model/VcfPairs.lean), generated last
+    for _ in range({"search": 200, "quick": 360}.get(tier, 2400)):
+        cases.append(gen_pairs_read(rng))
+    for _ in range({"search": 100, "quick": 180}.get(tier, 1200)):
+        cases.append(gen_pairs_hets(rng))
     return cases
 
 
